@@ -24,6 +24,15 @@ func getFullPath(filename string, appendExt bool) (string, error) {
 	return absPath, nil
 }
 
+// templatePath returns the absolute path of a template that lives in the
+// template directory. Unlike getFullPath, it doesn't depend on the mode flag,
+// which changes whenever a string or a file is evaluated
+func templatePath(filename string) (string, error) {
+	filename = joinPaths(userConfig.TemplateDir, filename) + userConfig.TemplateExt
+
+	return filepath.Abs(filename)
+}
+
 func joinPaths(path1, path2 string) string {
 	return strings.TrimRight(path1, "/") + "/" + strings.TrimLeft(path2, "/")
 }
